@@ -293,15 +293,30 @@ class AirTouchSocket(Generic[comms.Hdr]):
         task.add_done_callback(discard_task)
 
     async def _connect(self) -> None:
+        if not self.is_open:
+            _LOGGER.debug("_connect ignored. Socket has been closed")
+            return
+
         if self.is_connected:
             _LOGGER.debug("_connect ignored. Already connected")
             return
 
         _LOGGER.debug("Attempting to open connection to %s:%d", self.host, self.port)
         try:
-            self._reader, self._writer = await asyncio.open_connection(
+            reader, writer = await asyncio.open_connection(
                 host=self.host, port=self.port
             )
+
+            if not self.is_open:
+                # The socket was closed while the connection attempt was in
+                # progress, so the new connection is no longer wanted.
+                _LOGGER.debug("Socket closed while connecting. Dropping connection")
+                writer.close()
+                with contextlib.suppress(OSError):
+                    await writer.wait_closed()
+                return
+
+            self._reader, self._writer = reader, writer
 
             self.is_connected = True
             _LOGGER.debug("Connected to %s:%d", self.host, self.port)
@@ -314,7 +329,7 @@ class AirTouchSocket(Generic[comms.Hdr]):
         except OSError as ex:
             _LOGGER.debug("Unable to connect. Will try again later. Reason: %s", ex)
 
-        if not self.is_connected:
+        if not self.is_connected and self.is_open:
             # Connection failed, so retry after a small delay
             self._schedule(self._connect(), delay=_CONNECT_RETRY_DELAY)
 
